@@ -277,6 +277,20 @@ func Guard(f func() error) (err error) {
 	return f()
 }
 
+// GuardBounded is Guard for calls that must also return: f runs in its own goroutine, and if it has not
+// returned within the bound (times the watchdog scale) that is reported. The goroutine is abandoned.
+func GuardBounded(what string, bound time.Duration, f func() error) error {
+	bound *= WatchdogScale()
+	ch := make(chan error, 1)
+	go func() { ch <- Guard(f) }()
+	select {
+	case err := <-ch:
+		return err
+	case <-time.After(bound):
+		return fmt.Errorf("%s did not return within %v", what, bound)
+	}
+}
+
 // ---------------------------------------------------------------------------
 // generic runner
 
